@@ -47,6 +47,7 @@ typedef void (*myth_tls_destructor_fun_t)(void *);
 typedef struct myth_tls_key_entry {
   struct myth_tls_key_entry * next;
   myth_tls_destructor_fun_t destructor;
+  unsigned int gen;		/* incarnation of this index; every creation increments it */
 } myth_tls_key_entry_t;
 
 /* the toplevel data structure to allocate unsed keys from */
@@ -86,6 +87,7 @@ typedef struct myth_tls_key_allocator {
 /* a single thread local storage (just a void* pointer) */
 typedef struct myth_tls_entry {
   void * value;
+  unsigned int gen;		/* incarnation of the key the value was stored under */
 } myth_tls_entry_t;
 
 #define MYTH_TLS_DBG 1
